@@ -580,6 +580,11 @@ func (pConn *PFCPConn) handleSessionReportResponse(msg message.Message) error {
 		logger.PfcpLog.Warnln("context not found, deleting session locally")
 
 		releaseAllocatedFTEIDs(upf.fteidGenerator, sessItem.pdrs)
+
+		if err := releaseAllocatedIPs(upf.ippool, &sessItem); err != nil {
+			logger.PfcpLog.Errorln("session IP dealloc failed:", err)
+		}
+
 		pConn.RemoveSession(sessItem)
 
 		cause := upf.SendMsgToUPF(
